@@ -171,7 +171,7 @@ PROPS = {
                         "program dimension of the end-to-end part enumerated"],
     },
     "C05": {
-        "x": [],
+        "x": ["harness.hC05"],
         "extra": ["harness.pC05.run"],
         "engines": ["engine-t"],
         "engine": "engine-t",
